@@ -16,5 +16,7 @@ func controlsC05() []Control {
 		{Name: "wrap-around waiting arc includes the big-blind seat", Expect: "R5", Mutate: replaceIn("(*seatManager).isBetweenDealerBB", "i < (bbSeatID + sm.MaxSeat)", "i <= (bbSeatID + sm.MaxSeat)", 0)},
 		{Name: "waiting arc includes the dealer seat", Expect: "R5", Mutate: replaceIn("(*seatManager).isBetweenDealerBB", "targetSeatID > dealerSeatID", "targetSeatID >= dealerSeatID", 0)},
 		{Name: "dealt-in flag set by the join operation", Expect: "R1", Mutate: replaceIn("(*tableEngine).PlayerJoin", "te.table.State.PlayerStates[playerIdx].IsIn = true\n", "te.table.State.PlayerStates[playerIdx].IsIn = true\n\tte.table.State.PlayerStates[playerIdx].IsParticipated = true\n", 0)},
+		{Name: "open step reports success with the old table when cloning fails to fail", Expect: "R1", Mutate: replaceIn("(*tableEngine).openGame", "cloneTable, err := oldTable.Clone()\n\tif err != nil {", "cloneTable, err := oldTable.Clone()\n\tif err == nil {", 0)},
+		{Name: "positions re-initialised on every hand", Expect: "R1", Mutate: replaceIn("(*tableEngine).openGame", "if !te.sm.IsInitPositions() {", "if te.sm.IsInitPositions() {", 0)},
 	}
 }
